@@ -33,7 +33,8 @@ import (
 //	cfgsel <spec>                  a config selector returning the scripted error
 //	creds <dial|call> <spec>       per-RPC credentials returning the scripted error
 //	dial <spec> <failfast 0|1>     the dialer returns the scripted error
-//	stream <scenario>              srvstop | cancel | deadline | srvst.<code> | srvplain | clean | sendretry.<maxAttempts>
+//	stream <scenario>              srvstop | cancel | deadline | srvst.<code> | srvplain | clean | sendretry.<maxAttempts> |
+//	                               retryctx.<invoke|recv|send>.<deadline|cancel>
 //
 // Answers are canon values (nil | eof | st:<code> | raw), one per API call made.
 type reGS struct{ st *status.Status }
@@ -208,7 +209,7 @@ func (s *sRPCErr) Op(f []string) string {
 			srv.RegisterService(&grpc.ServiceDesc{ServiceName: "verif.Err", HandlerType: (*any)(nil),
 				Streams: []grpc.StreamDesc{{StreamName: "Stream", ClientStreams: true, ServerStreams: true,
 					Handler: func(_ any, ss grpc.ServerStream) error {
-						if strings.HasPrefix(scenario, "sendretry.") {
+						if strings.HasPrefix(scenario, "sendretry.") || strings.HasPrefix(scenario, "retryctx.") {
 							return status.Error(codes.Unavailable, "attempt refused") // trailers-only, before reading
 						}
 						var in emptypb.Empty
@@ -245,6 +246,10 @@ func (s *sRPCErr) Op(f []string) string {
 			dopts = append(dopts, grpc.WithDefaultServiceConfig(`{"methodConfig":[{"name":[{}],"retryPolicy":{"maxAttempts":`+scenario[10:]+
 				`,"initialBackoff":"0.01s","maxBackoff":"0.01s","backoffMultiplier":1,"retryableStatusCodes":["UNAVAILABLE"]}}]}`))
 		}
+		if strings.HasPrefix(scenario, "retryctx.") { // long retry backoff (2 s +-20%), the context ends 300 ms into it
+			dopts = append(dopts, grpc.WithDefaultServiceConfig(`{"methodConfig":[{"name":[{}],"retryPolicy":{"maxAttempts":4,`+
+				`"initialBackoff":"2s","maxBackoff":"2s","backoffMultiplier":1,"retryableStatusCodes":["UNAVAILABLE"]}}]}`))
+		}
 		cc, err := grpc.NewClient("passthrough:///creds", dopts...)
 		if err != nil {
 			return "err " + err.Error()
@@ -252,6 +257,61 @@ func (s *sRPCErr) Op(f []string) string {
 		defer cc.Close()
 		if f[0] == "creds" {
 			return reInvoke(cc, copts...)
+		}
+		if strings.HasPrefix(scenario, "retryctx.") {
+			// retryctx.<invoke|recv|send>.<deadline|cancel>: every attempt is refused with a retryable status; the
+			// named API call is inside the retry backoff sleep when the deadline expires / the application cancels
+			parts := strings.Split(scenario, ".")
+			if len(parts) != 3 {
+				return "bad-op"
+			}
+			api, how := parts[1], parts[2]
+			ctx, cancel := context.WithCancel(context.Background())
+			if how == "deadline" {
+				ctx, cancel = context.WithTimeout(context.Background(), 300*time.Millisecond)
+			}
+			defer cancel()
+			var items []string
+			done := make(chan struct{})
+			go func() {
+				defer close(done)
+				if api == "invoke" {
+					items = append(items, "invoke="+reCanon(cc.Invoke(ctx, "/verif.Err/Stream", &emptypb.Empty{}, &emptypb.Empty{})))
+					return
+				}
+				st, err := cc.NewStream(ctx, &grpc.StreamDesc{ClientStreams: true, ServerStreams: true}, "/verif.Err/Stream")
+				items = append(items, "new="+reCanon(err))
+				if err != nil {
+					return
+				}
+				if api == "send" {
+					// let the refusal arrive first: the first SendMsg then finds the attempt finished and retries
+					time.Sleep(time.Millisecond)
+					items = append(items, "send="+reCanon(st.SendMsg(&emptypb.Empty{})))
+					return
+				}
+				items = append(items, "send="+reCanon(st.SendMsg(&emptypb.Empty{})))
+				items = append(items, "recv="+reCanon(st.RecvMsg(&emptypb.Empty{})))
+			}()
+			settle()
+			time.Sleep(300 * time.Millisecond)
+			if how == "cancel" {
+				cancel()
+			}
+			settle()
+			select {
+			case <-done:
+			default:
+				time.Sleep(10 * time.Second)
+				settle()
+				select {
+				case <-done:
+					items = append(items, "late")
+				default:
+					return "HUNG " + strings.Join(items, " ")
+				}
+			}
+			return strings.Join(items, " ")
 		}
 		ctx, cancel := context.WithCancel(context.Background())
 		if scenario == "deadline" {
